@@ -5,3 +5,4 @@ import Nstd.Server.PropsTr
 import Nstd.Server.PropsTr13
 import Nstd.Server.PropsC14R
 import Nstd.Server.PropsTrLoop
+import Nstd.Server.PropsTrHand
